@@ -44,7 +44,9 @@ def on_inspect(gw, rec, target):
     me = sys._getframe(0)
     with warnings.catch_warnings():
         warnings.simplefilter("ignore")
+        ctx.in_sut(True)
         st = stackscope.extract(target.glet)
+        ctx.in_sut(False)
     got = [f.pyframe for f in st.frames]
     ctx.stat("inspections")
     ctx.cover(("c15", rel, state, len(target.frames), depth_of(gw, target)))
@@ -149,7 +151,9 @@ def foreign_thread(ctx):
     try:
         with warnings.catch_warnings():
             warnings.simplefilter("ignore")
+            ctx.in_sut(True)
             st = stackscope.extract(box["child"])
+            ctx.in_sut(False)
         ctx.stat("foreign_thread_checked")
         if st.frames or st.error is None:
             raise Violation("c15_foreign_thread", "extract(greenlet running in another thread) -> frames %r error %r" % ([f.funcname for f in st.frames], st.error), {})
